@@ -47,3 +47,6 @@ void ob_c04_expand_negctl(const std::array<size_t,2>& shape_, const std::array<s
 #define EX(K,R,A) template void ob_c04_expand<K,R,A>(const mk_t<K,size_t,R>&, const mk_t<K,size_t,R>&, int, size_t);
 #define EXK(R,A) EX(k_std,R,A) EX(k_utl,R,A)
 EXK(1,0) EXK(1,-1) EXK(2,0) EXK(2,1) EXK(2,-1) EXK(2,-2) EXK(3,0) EXK(3,1) EXK(3,2) EXK(3,-1) EXK(3,-2)
+#ifdef VERIF_THOROUGH
+EXK(3,-3) EXK(4,0) EXK(4,1) EXK(4,2) EXK(4,3) EXK(4,-1) EXK(4,-2) EXK(4,-3) EXK(4,-4)
+#endif
